@@ -21,6 +21,15 @@ func c11(c *q.Ctx) {
 	const st = "bcs/ledger/xledger/state::"
 	aclValidators(c)
 	xuperSignRules(c)
+	// the rule that is evaluated is the one the confirmed state holds NOW: every answer of the ACL manager comes out of a
+	// snapshot read made for this call (a remembered rule outlives the change of the rule: SetAccountAcl runs at
+	// pre-execution time, long before the change is confirmed)
+	for _, m := range []string{"GetAccountACL", "GetContractMethodACL"} {
+		if f := c.Fn("kernel/permission/acl::(*Manager)." + m); f != nil {
+			c.Gate(f, "Manager.GetObjectBySnapshot", q.ToSuccess(), q.Opt{})
+		}
+	}
+	c.MemoFields("kernel/permission/acl", "Manager", map[string]string{}, "ACL answers come out of the tip snapshot on every call")
 	permTree(c)
 	vp := c.Fn(ut + "validatePermTree")
 	if vp != nil {
